@@ -291,11 +291,27 @@ def classify(case, out):
     kinds = set(o.split()[0] for o in case)
     if "r_wait" in kinds or "r_loop" in kinds:
         bl = 0
-        for o in out:
+        prev = None
+        grew = compacted = growoff = False
+        for op, o in zip(case, out):
             if " | " in o and not o.startswith("ok | f="):
                 l2 = o.split(" | ", 1)[1].split(" ; ")[0].split()
                 if len(l2) >= 3 and l2[0].isdigit():
-                    bl = max(bl, int(l2[0]))
+                    cur = (int(l2[0]), int(l2[1]), int(l2[2]))
+                    bl = max(bl, cur[0])
+                    if prev and op.startswith(("r_wait", "r_loop")):
+                        if cur[0] > prev[0]:
+                            grew = True
+                            growoff = growoff or prev[1] > 0
+                        elif prev[1] > 0 and cur[1] == 0:
+                            compacted = True
+                    prev = cur
+        if grew:
+            tags.append("r:grew")
+        if growoff:
+            tags.append("r:grew-from-offset")
+        if compacted:
+            tags.append("r:compacted")
         tags.append("r:buflen=%s" % ("4096" if bl <= 4096 else "<=16384" if bl <= 16384 else "<=131072" if bl <= 131072 else ">=1MiB" if bl >= MIB else ">131072"))
         for o in out:
             if o.startswith("spin r="):
